@@ -433,7 +433,7 @@ def matches(finding: dict, violation: dict) -> bool:
 # ----------------------------------------------------------------------------------------------
 
 class Check:
-    def __init__(self, prop: str, tier: str, seed: int, level: str):
+    def __init__(self, prop: str, tier: str, seed: int, level: str, keep_replays: bool = False):
         self.prop = prop
         self.tier = tier
         self.seed = seed
@@ -458,8 +458,10 @@ class Check:
         self._n_replays = 0
         rd = REPLAY_DIR
         rd.mkdir(parents=True, exist_ok=True)
-        for old in rd.glob(f"{prop}-*.json"):
-            old.unlink()
+        self.replay_mode = False
+        if not keep_replays:
+            for old in rd.glob(f"{prop}-*.json"):
+                old.unlink()
 
     # -- model checking ---------------------------------------------------------------------
     def model_check(self, spec: str, cfg_name: str, *, expect_violation: str | None = None, timeout: int = 900,
@@ -552,8 +554,9 @@ class Check:
         problems = validate_evidence(ev)
         if problems:
             raise MachineryError("evidence would not validate: " + "; ".join(problems))
-        EVID_DIR.mkdir(parents=True, exist_ok=True)
-        (EVID_DIR / f"{self.prop}.json").write_text(json.dumps(ev, indent=1, default=str))
+        if not self.replay_mode:
+            EVID_DIR.mkdir(parents=True, exist_ok=True)
+            (EVID_DIR / f"{self.prop}.json").write_text(json.dumps(ev, indent=1, default=str))
         seen = set()
         for f, rec in self.known_hits:
             if f["id"] in seen:
@@ -602,9 +605,14 @@ def run_check(fn, prop: str, level: str) -> int:
     ap.add_argument("--replay", default=None)
     ap.add_argument("--seed", type=int, default=int(os.environ.get("VERIF_SEED", "0") or 0))
     a = ap.parse_args(sys.argv[2:])
-    chk = Check(prop, a.tier, a.seed, level)
+    chk = Check(prop, a.tier, a.seed, level, keep_replays=bool(a.replay))
     try:
-        fn(chk, a)
+        if a.replay:
+            import replay
+            replay.run_replay(chk, a.replay)
+            chk.replay_mode = True
+        else:
+            fn(chk, a)
         return chk.finish()
     except MachineryError as ex:
         print(f"MACHINERY-FAILURE property={prop}: {ex}", file=sys.stderr)
